@@ -63,6 +63,16 @@ func storeKindOf(w *World) (*storeKind, error) {
 			if ts == "HybridSearchIndex" {
 				takesIdx = true
 			}
+			// a narrower interface the hybrid index satisfies and that still offers WriteTo
+			if it, ok := fn.Signature.Params().At(i).Type().Underlying().(*types.Interface); ok && it.NumMethods() > 0 {
+				if hsi := w.Iface("HybridSearchIndex"); hsi != nil && types.Implements(hsi, it) {
+					for m := 0; m < it.NumMethods(); m++ {
+						if it.Method(m).Name() == "WriteTo" {
+							takesIdx = true
+						}
+					}
+				}
+			}
 		}
 		allInstrs(fn, func(in ssa.Instruction) {
 			c, ok := in.(ssa.CallInstruction)
